@@ -79,6 +79,13 @@ add("C18", "bounded-exhaustive enumeration of short option-setter sequences from
     "All {set,clear,toggle} x reflected tri-state setters from every initial option state, all length-2 (and length-3 from selected/all states) sequences, plus generated 5..40-step sequences mixed with ID/category/delimiter/symbol/encapsulation/auxiliary/log-level/FIFO setters and content edits: raw option bits, getters, stored settings, content, canonical String() and Index(-1)/Index(Len+5) behaviour must match the model after every step. Exhaustive for the enumerated sequences.",
     "Trusted: record model, reference renderer, VerifDump. UnsetLogLevel(all) outcome left open (docs silent).")
 
+add("C10", "harness-owned schedule enumeration (cooperative scheduler on the verifPoint hook) + brute-force linearizability against the list model; free-running parallel executions under the race detector",
+    "(A) every schedule, at lock-acquisition and operation-boundary granularity, of the enumerated 2-goroutine mutator programs on lengths 0..2 (thorough: all two-op pairs and 3x1), plus rapid-generated programs/schedules for 2-3 goroutines x 1-3 mutators: no panic, no self-deadlock/deadlock/leaked lock (deterministic, from lock ownership events), content changes only while the lock is held, configuration intact, capacity respected, nothing fabricated or duplicated, and some program-order-consistent sequential order reproduces every return value and the final content. (B) the same generated programs free-running on parallel goroutines under -race: same history oracle; race reports are keyed (read site / write-write pair) and compared with the listed known finding. Exhaustive for the enumerated schedules; sampled otherwise.",
+    "Trusted: scheduler and linearizability checker in c10.go; verifPoint hook events; list model. Interleavings finer than lock acquisition are only sampled by the free-running part; the race detector never proves absence. Known finding: lock-free read sites of the public wrappers (data race by the memory model), recorded not repaired.")
+add("C11", "snapshot-before/after per query over the reflected query set (enumeration + rapid programs) and parallel query programs under the race detector",
+    "Every classified query (named in the property, Is*/Can*, remaining niladic getters; classification by a declared mutator/exposer list, unclassified methods reported) x 24 argument variants on 5 richly configured templates and all their nested nodes, plus generated trees x programs of 5..40 queries: the full recursive snapshot is identical after every query, repeated queries agree, the Unmarshal result does not alias the structure. Parallel: 8..16 goroutines x 3..8 queries x 3 rounds on one shared structure (all cases of the -race stage): answers equal the isolated answers, snapshot unchanged, no race report.",
+    "Trusted: VerifDump snapshot; recorder closures are pure and goroutine-safe; the race detector samples executions only.")
+
 NOT_YET = {}
 
 ALL = ["C%02d" % i for i in range(1, 21)]
